@@ -9,6 +9,7 @@ package consensus
 import (
 	"bytes"
 	"fmt"
+	tmproto "github.com/tendermint/tendermint/proto/tendermint/types"
 	"testing"
 	"time"
 
@@ -41,7 +42,9 @@ func c05Env() *rtEnv {
 	script := func(h int64) (vu []abci.ValidatorUpdate, params *abci.ConsensusParams, retain int64) {
 		if h == 1 {
 			p := types.DefaultConsensusParams()
-			params = &abci.ConsensusParams{Block: &abci.BlockParams{MaxBytes: p.Block.MaxBytes, MaxGas: 2}}
+			// ... and the application version moves to 7 through the consensus parameters, while Info keeps reporting 0 (the
+			// chain's version is what the state says, not what the application's Info says after genesis)
+			params = &abci.ConsensusParams{Block: &abci.BlockParams{MaxBytes: p.Block.MaxBytes, MaxGas: 2}, Version: &tmproto.VersionParams{AppVersion: 7}}
 		}
 		if h == 2 {
 			pk, err := cryptoenc.PubKeyToProto(e.keys[1].PubKey())
